@@ -50,6 +50,23 @@ CLAIMED = {
         "Tied to /repo by broker runs with bid != ask and rates in [0,1], and the fee models alone on random considerations.",
    note=TRUST + "BacktestDataHandler returns (bid, bid); the property is checked at the broker/data-handler interface with a stub whose bid != ask.",
    design="7/C05", technique="Coq proof by induction over the executed order list; Q arithmetic lemmas + correspondence check"),
+ 'C12': dict(
+   text="Machine-checked theorems (props/C12.v): end < start rejected; for start <= end with tod(end) >= tod(start) the clock's days "
+        "are exactly the Mon-Fri dates of the range; events are the per-day blocks [00:00]? 14:30 21:00 [23:59]? in day order; event "
+        "times strictly increasing for all four flag combinations - for every (start, end) over the integers. The model states what "
+        "pd.date_range(freq=BDay()) means; it is tied to /repo by running the real engine on random ranges up to 30 years and an "
+        "exhaustive 70-day x 6x6 time-of-day grid (thorough) and comparing the full (timestamp, type) list, plus a datetime.date oracle.",
+   note=TRUST + "The code is one pandas call; the theorem is about its stated meaning, the correspondence connects the two. UTC only, whole seconds.",
+   design="7/C12", technique="Coq proof (filter over an integer range, lia with div/mod) + model/implementation correspondence check"),
+ 'C13': dict(
+   text="Machine-checked theorems (props/C13.v): weekly / daily / end-of-month membership characterisations (end of month = last "
+        "Mon-Fri date of its month, using month_index monotonicity proved for ALL days by a complete 400-year vm_compute sweep + "
+        "periodicity), stamps, strict increase, buy-and-hold instant, unknown weekday rejected, and meets_clock: every scheduled "
+        "instant is a market_close/open event of the clock for the same range. Tied to /repo by the real Rebalance classes and engine "
+        "over random and grid ranges, weekday strings incl. invalid ones, and civil-date arithmetic vs datetime.date on every day "
+        "1900-2299 (thorough).",
+   note=TRUST + "pandas' W-XXX / BME / bdate_range semantics are modelled and observed through the correspondence.",
+   design="7/C13", technique="Coq proof incl. finite-cycle sweep by vm_compute lifted by a periodicity lemma + correspondence check"),
  'C15': dict(
    text="Machine-checked theorems (props/C15.v: rejected_is_noop for every state and every non-update request, "
         "backwards_update_is_noop / update_validation_is_noop for the repaired clock update, portfolio_rejected_is_noop, "
